@@ -30,4 +30,7 @@ def templates(tier, seed):
                 tag = "+".join(f"{k}={v}" for k, v in extra.items()) or "plain"
                 ts.append(Template(f"D/{depth}/{''.join(arr)}/{tag}/N={N}", t_lazy, ("frame", N, dict(arr=arr, depth=depth, **extra))))
         ts.append(Template(f"F/ab/coerce_a_int/N={N}", t_lazy, ("frame", N, dict(arr=["a", "b"], coerce_a_int=True))))
+    import tmpl_pl
+
+    ts += [Template(tid, tmpl.pick(fn, LABELS), args) for tid, fn, args in tmpl_pl.lazy_cases(tier)]
     return ts
